@@ -284,6 +284,13 @@ EndSeg(mm, seg) ==
               Ok(Idle))))
     [] seg.status = "panic" -> FailV("panic", seg.msg)
     [] seg.status = "skipped" -> [v |-> "skip", m |-> Idle, cls |-> "skip", detail |-> seg.msg]
+    [] seg.status = "dupsplit" ->
+         \* the run was refused ahead of the bookkeeping as "duplicate split entries" of this security:
+         \* legitimate exactly when the rule of splits.rs (Tx!DupSplit) applies to its rows; otherwise a
+         \* history the rules accept was rejected
+         IF DupSplit([n \in DOMAIN seg.rows |-> ToRow(seg.rows[n])])
+         THEN [v |-> "skip", m |-> Idle, cls |-> "skip", detail |-> seg.msg]
+         ELSE FailV("reject", "refused as duplicated split entries although no affiliate-specific split stands within a day of a split for all affiliates: " \o seg.msg)
     [] OTHER -> FailV("reject", "run failed before bookkeeping: " \o seg.msg)
 
 (***************************************************************************)
@@ -303,7 +310,7 @@ Conclude(r) ==
 Next ==
   /\ l <= Len(Segs)
   /\ IF m.k = 0
-     THEN IF Seg.status \in {"skipped"} THEN Conclude(EndSeg(Idle, Seg))
+     THEN IF Seg.status \in {"skipped", "dupsplit"} THEN Conclude(EndSeg(Idle, Seg))
           ELSE /\ m' = Load /\ UNCHANGED <<l, tally>>
      ELSE IF m.k <= Len(Seg.deltas)
           THEN LET r == StepDelta(m, Seg.deltas[m.k])
